@@ -316,3 +316,38 @@ package rules
 //@   ensures typeIs(_this.CurrentEntry.Rule, "*BeginDocumentRule") && payload(_this.CurrentEntry.Rule, "*BeginDocumentRule") == &beginDocumentRule
 //@   ensures _this.CurrentEntry.DataType == DataTypeInvalid && _this.CurrentEntry.ExpectedObjectCount == -1 && _this.CurrentEntry.CurrentObjectCount == 0
 //@   ensures _this.CurrentEntry.Keys != nil && len(_this.CurrentEntry.Keys) == 0 && fresh(_this.CurrentEntry.Keys)
+
+// ---------------------------------------------------------------------------------------------
+// Chunk headers (C14): the running array size grows by the BYTE count of the chunk (elements
+// times element width, bit arrays rounded up), and that sum is what is compared with the limit.
+// Ending a zero-length chunk runs the rule machinery (it may end the array and reject for other
+// reasons); it is assumed not to touch the byte counters.
+//@ func (*Context).EndChunkAnyType
+//@   trusted
+//@   modifies obj(_this), memall(contextStackEntry), memall(byte), maps, alloc
+//@   ensures _this.arrayTotalByteCount == old(_this.arrayTotalByteCount) && _this.arrayMaxByteCount == old(_this.arrayMaxByteCount)
+//@   may_panic
+//@ func (*Context).EndChunkString
+//@   trusted
+//@   modifies obj(_this), memall(contextStackEntry), memall(byte), maps, alloc
+//@   ensures _this.arrayTotalByteCount == old(_this.arrayTotalByteCount) && _this.arrayMaxByteCount == old(_this.arrayMaxByteCount)
+//@   may_panic
+//@ func (*Context).EndChunkStringBuilder
+//@   trusted
+//@   modifies obj(_this), memall(contextStackEntry), memall(byte), maps, alloc
+//@   ensures _this.arrayTotalByteCount == old(_this.arrayTotalByteCount) && _this.arrayMaxByteCount == old(_this.arrayMaxByteCount)
+//@   may_panic
+
+//@ macro CHUNKLIMIT(bytes)
+//@   modifies obj(_this), memall(contextStackEntry), memall(byte), maps, alloc
+//@   ensures !(old(_this.arrayTotalByteCount) + bytes > old(_this.arrayMaxByteCount) && old(_this.arrayMaxByteCount) > 0)
+//@   ensures _this.arrayTotalByteCount == old(_this.arrayTotalByteCount) + bytes && _this.arrayMaxByteCount == old(_this.arrayMaxByteCount)
+//@   xensures elemCount > 0 ==> old(_this.arrayTotalByteCount) + bytes > old(_this.arrayMaxByteCount) && old(_this.arrayMaxByteCount) > 0
+
+//@ func (*Context).BeginChunkAnyType
+//@   requires _this.arrayType >= 1 && _this.arrayType <= 20
+//@   use CHUNKLIMIT(cbe.ChunkBytes(int(cbe.ElemBits(uint8(_this.arrayType))), elemCount))
+//@ func (*Context).BeginChunkString
+//@   use CHUNKLIMIT(elemCount)
+//@ func (*Context).BeginChunkStringBuilder
+//@   use CHUNKLIMIT(elemCount)
